@@ -527,7 +527,15 @@ pub fn run(plan: &Plan, sp: &SpawnPlan) -> FamOut {
     let mut nontrivial = false;
     let boot: Vec<Option<usize>> = (0..3).map(|i| desc_of_parent_fd(i)).collect();
     if sp.threads == 0 {
+        // with `files_low`, the low numbers go to the shared pool files in half of the runs and
+        // are left for the files opened per spawn (each with a single owner) in the other half
+        let pool_high = plan.parent.files_low && (plan.seed >> 9) & 1 == 1;
+        let min0 = sim().k.harness_fd_min;
+        if pool_high {
+            sim().k.harness_fd_min = 3;
+        }
         let pool = Pool::new("m");
+        sim().k.harness_fd_min = min0;
         let mut kept: Vec<Popen> = vec![];
         let mut boot = boot;
         for (si, spec) in sp.spawns.iter().enumerate() {
@@ -1311,15 +1319,25 @@ pub fn generate(prop: &str, rng: &mut Rng, plan: &mut Plan, index: u64) {
                 }
                 // NUL somewhere
                 if rng.chance(1, 8) {
+                    // ... in front, in the middle, or as the very last byte (where a C string ends anyway)
+                    let with_nul = |rng: &mut Rng, mut v: Vec<u8>| -> Vec<u8> {
+                        let at = match rng.below(3) {
+                            0 => 0,
+                            1 => v.len() / 2,
+                            _ => v.len(),
+                        };
+                        v.insert(at, 0);
+                        v
+                    };
                     match rng.below(4) {
                         0 => {
                             let i = rng.below(spec.argv.len() as u64) as usize;
-                            spec.argv[i].push(0);
-                            spec.argv[i].push(b'x');
+                            let a = std::mem::take(&mut spec.argv[i]);
+                            spec.argv[i] = with_nul(rng, a);
                         }
-                        1 => spec.env = Some(vec![(b"K\0EY".to_vec(), b"v".to_vec())]),
-                        2 => spec.env = Some(vec![(b"KEY".to_vec(), b"v\0w".to_vec())]),
-                        _ => spec.executable = Some(if rng.chance(1, 2) { b"/bin/pr\0og".to_vec() } else { b"/bin/prog\0x".to_vec() }),
+                        1 => spec.env = Some(vec![(with_nul(rng, b"KEY".to_vec()), b"v".to_vec())]),
+                        2 => spec.env = Some(vec![(b"KEY".to_vec(), with_nul(rng, b"vw".to_vec()))]),
+                        _ => spec.executable = Some(with_nul(rng, b"/bin/prog".to_vec())),
                     }
                 }
                 spec.via_exec = spec.executable.is_none() && !spec.setpgid && rng.chance(1, 3);
@@ -1689,6 +1707,9 @@ pub fn generate(prop: &str, rng: &mut Rng, plan: &mut Plan, index: u64) {
             gen_streams(rng, &mut spec, false);
             if rng.chance(1, 4) {
                 spec.setuid = Some(1000);
+            }
+            if rng.chance(1, 4) {
+                spec.setgid = Some(*rng.pick(&[100u32, 1000, 0]));
             }
             spec.setpgid = rng.chance(1, 3);
             if rng.chance(1, 6) {
